@@ -80,6 +80,8 @@ Qed.
 
 Lemma Forall2_snoc l1 l2 x y : Forall2 P l1 l2 -> P x y -> Forall2 P (l1 ++ [x]) (l2 ++ [y]).
 Proof. intros F Pxy. apply Forall2_app; [assumption | constructor; [assumption | constructor]]. Qed.
+Lemma Forall2_mono (Q : X -> Y -> Prop) l1 l2 : (forall x y, P x y -> Q x y) -> Forall2 P l1 l2 -> Forall2 Q l1 l2.
+Proof. intros H F. induction F; constructor; auto. Qed.
 End Forall2Facts.
 
 (* ---------- the multiset specification ---------- *)
@@ -122,7 +124,7 @@ Definition spec_history (ops : list op) : list (list A) * list out := spec_run [
 (* model output vs specification output of one op *)
 Definition out_agree (o : op (A:=A)) (m s : out (A:=A)) : Prop :=
   match o with
-  | OpPre _ | OpPost _ => match m, s with OList x, OList y => Permutation x y | _, _ => False end
+  | OpPre _ | OpPost _ => match m, s with OList x, OList y => Permutation x y | _, _ => m = s end
   | _ => m = s
   end.
 
@@ -367,8 +369,11 @@ Implicit Types (T : Tree (A:=A)) (ts : list (Tree (A:=A))) (ss : list (list A)) 
 Definition good T : Prop :=
   inv (root T) /\ bst (root T) /\ count T = Z.of_nat (length (inorder (root T))).
 
+Lemma good_intro T : inv (root T) -> bst (root T) -> count T = Z.of_nat (length (inorder (root T))) -> good T.
+Proof. intros; split; [|split]; assumption. Qed.
+
 Lemma good_empty : good empty_Tree.
-Proof. repeat split; cbn; auto. Qed.
+Proof. apply good_intro; cbn; auto. Qed.
 
 Lemma Tree_Add_good T v : good T ->
   exists T', Tree_Add cmp T v = Ok T' /\ good T' /\ Permutation (inorder (root T')) (v :: inorder (root T)).
@@ -376,10 +381,10 @@ Proof.
   destruct T as [rt c]. unfold good, Tree_Add. cbn [root count]. intros (I & B & C).
   destruct rt as [|l x h r].
   - cbn [bind]. eexists; split; [reflexivity|]. cbn [root count]. split; [|reflexivity].
-    repeat split; [apply inv_leaf | apply leaf_bst | rewrite C; cbn; lia].
+    split; [apply inv_leaf | split; [apply leaf_bst | rewrite C; cbn; lia]].
   - destruct (add_total v (N l x h r)) as (t' & Ea & It'); [discriminate | exact I |]. rewrite Ea. cbn [bind].
     eexists; split; [reflexivity|]. cbn [root count]. pose proof (add_perm cmp v _ _ Ea) as P. split; [|exact P].
-    repeat split; [exact It' | eapply add_bst; eauto | rewrite C, (Permutation_length P); cbn [length]; lia].
+    split; [exact It' | split; [eapply add_bst; eauto | rewrite C, (Permutation_length P); cbn [length]; lia]].
 Qed.
 
 Lemma Tree_Remove_good T v : good T ->
@@ -389,14 +394,15 @@ Lemma Tree_Remove_good T v : good T ->
 Proof.
   destruct T as [rt c]. unfold good, Tree_Remove. cbn [root count]. intros (I & B & C).
   destruct rt as [|l x h r].
-  - exists (mkTree E c), false. split; [reflexivity|]. cbn [root count]. repeat split; auto; [discriminate | intros []].
+  - exists (mkTree E c), false. split; [reflexivity|]. cbn [root count].
+    split; [auto|]. split; [split; [discriminate | intros []] | reflexivity].
   - destruct (remove_total v (N l x h r)) as (t' & b & Er & It'); [discriminate | exact I |]. rewrite Er. cbn [bind].
     eexists _, b. split; [reflexivity|]. cbn [root count].
     pose proof (remove_result_iff eqb cmp TO v _ _ _ B Er) as Hb. destruct b.
-    + pose proof (remove_true_perm eqb cmp TO v _ _ Er) as P. repeat split; try tauto.
-      * eapply remove_true_bst; eauto.
-      * rewrite C, (Permutation_length P). cbn [length]. lia.
-    + apply remove_false_same in Er. subst t'. repeat split; tauto.
+    + pose proof (remove_true_perm eqb cmp TO v _ _ Er) as P. split; [|split; [exact Hb | exact P]].
+      split; [exact It' | split; [eapply remove_true_bst; eauto|]].
+      rewrite (Permutation_length P) in C. cbn [length] in C. lia.
+    + apply remove_false_same in Er. subst t'. split; [auto|]. split; [exact Hb | reflexivity].
 Qed.
 
 Lemma Tree_Contains_good T v : good T -> (Tree_Contains eqb cmp T v = true <-> In v (inorder (root T))).
@@ -415,9 +421,9 @@ Lemma Tree_adds_good vs : forall T, good T ->
   exists T', Tree_adds cmp T vs = Ok T' /\ good T' /\ Permutation (inorder (root T')) (vs ++ inorder (root T)).
 Proof.
   induction vs as [|v vs IH]; intros T G; cbn [Tree_adds].
-  - exists T. repeat split; auto; apply G.
+  - exists T. split; [reflexivity|]. split; [exact G | reflexivity].
   - destruct (Tree_Add_good T v G) as (T1 & E1 & G1 & P1). rewrite E1. cbn [bind].
-    destruct (IH T1 G1) as (T' & E' & G' & P'). exists T'. repeat split; auto; try apply G'.
+    destruct (IH T1 G1) as (T' & E' & G' & P'). exists T'. split; [exact E'|]. split; [exact G'|].
     rewrite P', P1. cbn [app]. symmetry. apply Permutation_middle.
 Qed.
 
@@ -427,7 +433,8 @@ Lemma Tree_Clone_good T :
   exists T', Tree_Clone cmp T = Ok T' /\ good T' /\ Permutation (inorder (root T')) (inorder (root T)).
 Proof.
   unfold Tree_Clone. destruct (Tree_adds_good (preorder (root T)) empty_Tree good_empty) as (T' & E' & G' & P').
-  exists T'. repeat split; auto; try apply G'. rewrite P'. cbn [empty_Tree root inorder]. rewrite app_nil_r. apply preorder_perm.
+  exists T'. split; [exact E'|]. split; [exact G'|].
+  rewrite P'. cbn [empty_Tree root inorder]. rewrite app_nil_r. apply preorder_perm.
 Qed.
 
 Lemma Tree_Clone_same_inorder T T' : good T -> Tree_Clone cmp T = Ok T' ->
@@ -436,7 +443,8 @@ Proof.
   intros G E1. destruct (Tree_Clone_good T) as (T1 & E2 & G1 & P). rewrite E1 in E2. injection E2 as <-.
   assert (e : inorder (root T') = inorder (root T)).
   { apply (sorted_perm_eq eqb cmp TO); [apply (bst_sorted eqb cmp TO); apply G1 | apply (bst_sorted eqb cmp TO); apply G | exact P]. }
-  repeat split; auto; try apply G1. destruct G1 as (_ & _ & C1). destruct G as (_ & _ & C). rewrite C1, C, e. reflexivity.
+  split; [exact G1|]. split; [exact e|].
+  destruct G1 as (_ & _ & C1). destruct G as (_ & _ & C). rewrite C1, C, e. reflexivity.
 Qed.
 
 (* a tree value represents a multiset *)
@@ -457,7 +465,7 @@ Proof.
   destruct o as [h v|h v|h v|h|h|h|h|h|h]; unfold Model.step, Hist.spec_step; cbv beta zeta iota;
     (destruct (nth_error ts h) as [T|] eqn:ET;
       [destruct (Forall2_nth _ _ _ _ _ HR ET) as (l & EL & G & P); rewrite EL; pose proof (nth_error_lt _ _ _ ET) as Lh
-      | rewrite (Forall2_nth_none _ _ _ _ HR ET); cbn [fst snd out_agree]; split; [exact HR | try reflexivity]]).
+      | rewrite (Forall2_nth_none _ _ _ _ HR ET); cbn [fst snd out_agree]; split; [exact HR | reflexivity]]).
   - (* Add *)
     destruct (Tree_Add_good T v G) as (T' & E1 & G' & P'). rewrite E1. cbn [fst snd out_agree]. split; [|reflexivity].
     rewrite set_handle_upd. apply Forall2_upd; auto. split; [exact G'|]. rewrite P', P. reflexivity.
@@ -503,4 +511,157 @@ Proof.
   destruct (step_refines ts ss o HR) as (HR' & Ho). destruct (IH _ _ HR') as (HR'' & Hos). auto.
 Qed.
 
+(* what [R] says about each handle, spelled out *)
+Definition represents T (l : list A) : Prop :=
+  bst (root T) /\ inorder (root T) = sort l /\ Sorted (le cmp) (inorder (root T)) /\ count T = Z.of_nat (length l).
+
+Lemma rel_represents T l : rel T l -> represents T l.
+Proof.
+  intros HR. assert (HR' := HR). destruct HR' as ((_ & B & C) & P).
+  split; [exact B|]. split; [apply rel_inorder; exact HR|]. split; [apply (bst_Sorted eqb cmp TO); exact B|].
+  rewrite C, (Permutation_length P). reflexivity.
+Qed.
+
+Lemma R_initial : R [empty_Tree] [[]].
+Proof. constructor; [|constructor]. split; [apply good_empty | reflexivity]. Qed.
+
+(* the specification never panics, so neither does the model *)
+Lemma spec_step_no_panic ss o : ~ is_panic (snd (spec_step ss o)).
+Proof.
+  destruct o as [h v|h v|h v|h|h|h|h|h|h]; unfold Hist.spec_step; cbv beta zeta iota;
+    destruct (nth_error ss h) as [l|]; cbn [snd is_panic]; auto.
+  destruct (mem v l); cbn [snd is_panic]; auto.
+Qed.
+
+Lemma out_agree_no_panic o (m s : out (A:=A)) : out_agree o m s -> ~ is_panic s -> ~ is_panic m.
+Proof.
+  unfold out_agree. destruct o; try (intros ->; auto); destruct m, s; cbn [is_panic]; auto; intros H; discriminate H.
+Qed.
+
+Lemma run_no_panic ops : forall ts ss, R ts ss -> Forall (fun x => ~ is_panic x) (snd (run ts ops)).
+Proof.
+  induction ops as [|o ops IH]; intros ts ss HR; [constructor|].
+  rewrite run_cons. cbn [snd]. destruct (step_refines ts ss o HR) as (HR' & Ho). constructor.
+  - eapply out_agree_no_panic; [exact Ho | apply spec_step_no_panic].
+  - eapply IH; exact HR'.
+Qed.
+
+(* main statement: a whole history from one empty tree *)
+Theorem history_refines ops :
+  outs_agree ops (snd (run_history eqb cmp ops)) (snd (spec_history eqb cmp ops)) /\
+  Forall2 represents (fst (run_history eqb cmp ops)) (fst (spec_history eqb cmp ops)) /\
+  Forall (fun x => ~ is_panic x) (snd (run_history eqb cmp ops)).
+Proof.
+  unfold run_history, spec_history. destruct (run_refines ops _ _ R_initial) as (HR & Ho).
+  split; [exact Ho|]. split; [|eapply run_no_panic; exact R_initial].
+  eapply Forall2_mono; [|exact HR]. apply rel_represents.
+Qed.
+
+(* the same from any well-formed state, e.g. the state reached by an earlier history *)
+Theorem run_refines_from ts ss ops : Forall2 rel ts ss ->
+  outs_agree ops (snd (run ts ops)) (snd (spec_run ss ops)) /\
+  Forall2 rel (fst (run ts ops)) (fst (spec_run ss ops)).
+Proof. intro HR. destruct (run_refines ops _ _ HR); auto. Qed.
+
+Lemma history_rel ops : Forall2 rel (fst (run_history eqb cmp ops)) (fst (spec_history eqb cmp ops)).
+Proof. unfold run_history, spec_history. apply (run_refines ops _ _ R_initial). Qed.
+
+(* Remove on a reachable state: the returned boolean is membership; "false" leaves the
+   whole state untouched; "true" removes exactly one occurrence from that handle only *)
+Theorem remove_reachable ts ss h v T : Forall2 rel ts ss -> nth_error ts h = Some T ->
+  exists T' b, step ts (OpRemove h v) = (upd ts h T', OBool b) /\
+    (b = true <-> In v (inorder (root T))) /\
+    (if b then Permutation (inorder (root T)) (v :: inorder (root T')) /\ count T' = count T - 1
+     else T' = T /\ upd ts h T' = ts).
+Proof.
+  intros HR ET. destruct (Forall2_nth _ _ _ _ _ HR ET) as (l & EL & G & P).
+  destruct (Tree_Remove_good T v G) as (T' & b & E1 & G' & Hb & Hres).
+  exists T', b. unfold Model.step; cbv beta zeta iota. rewrite ET, E1. split; [reflexivity|]. split; [exact Hb|].
+  destruct b.
+  - split; [exact Hres|]. destruct G as (_ & _ & C). destruct G' as (_ & _ & C').
+    rewrite C, C', (Permutation_length Hres). cbn [length]. lia.
+  - subst T'. split; [reflexivity | apply upd_same; exact ET].
+Qed.
+
+(* Clone on a reachable state: succeeds whatever the size, appends a new handle whose tree has
+   the same in-order listing and Len, and leaves every existing handle as it was *)
+Theorem clone_reachable ts ss h T : Forall2 rel ts ss -> nth_error ts h = Some T ->
+  exists T', step ts (OpClone h) = (ts ++ [T'], OUnit) /\
+    inorder (root T') = inorder (root T) /\ count T' = count T /\ bst (root T') /\
+    nth_error (ts ++ [T']) (length ts) = Some T' /\
+    forall g, (g < length ts)%nat -> nth_error (ts ++ [T']) g = nth_error ts g.
+Proof.
+  intros HR ET. destruct (Forall2_nth _ _ _ _ _ HR ET) as (l & EL & G & P).
+  destruct (Tree_Clone_good T) as (T' & E1 & G' & P').
+  destruct (Tree_Clone_same_inorder T T' G E1) as (_ & e & ec).
+  exists T'. unfold Model.step; cbv beta zeta iota. rewrite ET, E1. split; [reflexivity|].
+  split; [exact e|]. split; [exact ec|]. split; [apply G'|]. split.
+  - rewrite nth_error_app2; [|lia]. rewrite Nat.sub_diag. reflexivity.
+  - intros g Hg. apply nth_error_app1. exact Hg.
+Qed.
+
 End Refine.
+
+(* ---------- closing the interface: cached heights >= 0 already make add/remove total ---------- *)
+Section Closed.
+Context {A : Type} (eqb : A -> A -> bool) (cmp : A -> A -> Z).
+
+Lemma hnn_E : hnn (@E A).
+Proof. exact I. Qed.
+Lemma hnn_leaf (v : A) : hnn (leaf v).
+Proof. cbn. repeat split; lia. Qed.
+Lemma hnn_add_total (v : A) t : t <> E -> hnn t -> exists t', add cmp v t = Ok t' /\ hnn t'.
+Proof. intros Hne H. destruct (add_hnn_total cmp v t Hne H) as (t' & E1 & H1 & _). eauto. Qed.
+Lemma hnn_remove_total (v : A) t : t <> E -> hnn t -> exists t' b, remove eqb cmp v t = Ok (t', b) /\ hnn t'.
+Proof. apply remove_hnn_total. Qed.
+
+Hypothesis TO : TotalOrderEq eqb cmp.
+
+Definition wf (T : Tree (A:=A)) : Prop := good cmp hnn T.
+Definition holds (T : Tree (A:=A)) (l : list A) : Prop := rel cmp hnn T l.
+
+Definition history_refines_closed := history_refines eqb cmp TO hnn hnn_E hnn_leaf hnn_add_total hnn_remove_total.
+Definition history_rel_closed := history_rel eqb cmp TO hnn hnn_E hnn_leaf hnn_add_total hnn_remove_total.
+Definition run_refines_closed := run_refines_from eqb cmp TO hnn hnn_E hnn_leaf hnn_add_total hnn_remove_total.
+Definition remove_reachable_closed := remove_reachable eqb cmp TO hnn hnn_remove_total.
+Definition clone_reachable_closed := clone_reachable eqb cmp TO hnn hnn_E hnn_leaf hnn_add_total.
+Definition Tree_Clone_closed := Tree_Clone_good eqb cmp TO hnn hnn_E hnn_leaf hnn_add_total.
+
+(* the same two facts about a state reached by any history from one empty tree *)
+Theorem remove_after_history ops h v T :
+  let ts := fst (run_history eqb cmp ops) in
+  nth_error ts h = Some T ->
+  exists T' b, step eqb cmp ts (OpRemove h v) = (set_handle ts h T', OBool b) /\
+    (b = true <-> In v (inorder (root T))) /\
+    (if b then Permutation (inorder (root T)) (v :: inorder (root T')) /\ count T' = count T - 1
+     else T' = T /\ set_handle ts h T' = ts).
+Proof. intros ts ET. exact (remove_reachable_closed ts _ h v T (history_rel_closed ops) ET). Qed.
+
+(* Clone after any history: succeeds whatever the size; the clone lists the same values in
+   order and has the same Len; afterwards (for every continuation ops2) what the original
+   shows is exactly what it would show if the clone did not exist and only its own ops were
+   run, and what the clone shows depends only on the ops addressed to the clone *)
+Theorem clone_independent ops h T ops2 :
+  let ts := fst (run_history eqb cmp ops) in
+  nth_error ts h = Some T ->
+  exists T', step eqb cmp ts (OpClone h) = (ts ++ [T'], OUnit) /\
+    inorder (root T') = inorder (root T) /\ count T' = count T /\
+    nth_error (ts ++ [T']) (length ts) = Some T' /\
+    select h ops2 (snd (run eqb cmp (ts ++ [T']) ops2)) = snd (run eqb cmp ts (on_handle h ops2)) /\
+    nth_error (fst (run eqb cmp (ts ++ [T']) ops2)) h = nth_error (fst (run eqb cmp ts (on_handle h ops2))) h /\
+    select (length ts) ops2 (snd (run eqb cmp (ts ++ [T']) ops2)) = snd (run eqb cmp (ts ++ [T']) (on_handle (length ts) ops2)) /\
+    nth_error (fst (run eqb cmp (ts ++ [T']) ops2)) (length ts) =
+      nth_error (fst (run eqb cmp (ts ++ [T']) (on_handle (length ts) ops2))) (length ts).
+Proof.
+  intros ts ET.
+  destruct (clone_reachable_closed ts _ h T (history_rel_closed ops) ET) as (T' & E1 & e & ec & _ & Ec & Eold).
+  exists T'. split; [exact E1|]. split; [exact e|]. split; [exact ec|]. split; [exact Ec|].
+  pose proof (nth_error_lt _ _ _ ET) as Lh.
+  assert (L1 : (h < length (ts ++ [T']))%nat) by (rewrite app_length; lia).
+  assert (L2 : (length ts < length (ts ++ [T']))%nat) by (rewrite app_length; cbn; lia).
+  destruct (run_project eqb cmp (ts ++ [T']) ts ops2 h L1 (Eold h Lh)) as (P1 & P2).
+  destruct (run_project eqb cmp (ts ++ [T']) (ts ++ [T']) ops2 (length ts) L2 eq_refl) as (P3 & P4).
+  auto.
+Qed.
+
+End Closed.
